@@ -212,6 +212,24 @@ def ver_st():
     return st.lists(st.sampled_from(COMPONENTS), min_size=1, max_size=4).map(lambda l: '.'.join(map(str, l)))
 
 
+def _wide_component():
+    # components as they may be written: plain, with leading zeros, and far longer than any machine word (or than the
+    # 4300 digits the interpreter is willing to convert in one go)
+    long_ = st.tuples(st.sampled_from([19, 20, 39, 4299, 4300, 4301, 6000]), st.sampled_from(['9', '1', '10', '123456789', '0']), st.sampled_from(['', '0', '1', '9'])).map(lambda t: ((t[1] * t[0])[:t[0] - len(t[2])] + t[2]).lstrip('0') or '0')
+    padded = st.tuples(st.sampled_from(['0', '00', '000']), st.sampled_from(COMPONENTS)).map(lambda t: t[0] + str(t[1]))
+    return st.one_of(st.sampled_from(COMPONENTS).map(str), st.sampled_from(COMPONENTS).map(str), padded, long_)
+
+
+def strat_pair_wide():
+    def mk(t):
+        p, base, i, x, y, pa, pb = t
+        i = i % len(base)
+        a, b = list(base), list(base)
+        a[i], b[i] = x, y
+        return {'kind': 'pair', 'product': p, 'a': ['.'.join(a), PATCHES[p][pa % len(PATCHES[p])]], 'b': ['.'.join(b), PATCHES[p][pb % len(PATCHES[p])]]}
+    return st.tuples(st.sampled_from(sorted(PATCHES)), st.lists(_wide_component(), min_size=1, max_size=4), st.integers(0, 3), _wide_component(), _wide_component(), st.integers(0, 2), st.integers(0, 2)).map(mk)
+
+
 def strat_pair():
     return st.sampled_from(sorted(PATCHES)).flatmap(lambda p: st.fixed_dictionaries({'kind': st.just('pair'), 'product': st.just(p), 'a': st.tuples(ver_st(), st.sampled_from(PATCHES[p])).map(list), 'b': st.tuples(ver_st(), st.sampled_from(PATCHES[p])).map(list)}))
 
@@ -259,6 +277,7 @@ def run(ctx):
     f = 1 if q else 25
     ctx.hyp('strat_pair', 30000 * f, label=1)
     ctx.hyp('strat_pair_close', 30000 * f, label=2)
+    ctx.hyp('strat_pair_wide', 6000 * f, label=7)
     ctx.hyp('strat_triple', 10000 * f, label=3)
     ctx.hyp('strat_triple_close', 10000 * f, label=4)
     ctx.hyp('strat_timeframe', 5000 * f, label=5)
